@@ -316,6 +316,39 @@ func sealedApis(kind, alg, ns string) string {
 	if wc != independentCid(buf.Bytes()) {
 		return "ToSealedWriter cid is not the hash of the bytes written"
 	}
+	// one token sealed again and again (ECDSA signatures differ from call to call): every call reports the CID of the
+	// bytes IT returned or wrote
+	{
+		var tk interface {
+			ToSealed(crypto.PrivKey) ([]byte, cid.Cid, error)
+			ToSealedWriter(io.Writer, crypto.PrivKey) (cid.Cid, error)
+		}
+		if kind == "dlg" {
+			tk, _, _ = delegation.FromSealed(b)
+		} else {
+			tk, _, _ = invocation.FromSealed(b)
+		}
+		for r := 0; r < 3; r++ {
+			b2, c2, err := tk.ToSealed(k.priv)
+			if err != nil {
+				return fmt.Sprintf("ToSealed (call %d on one token): %v", r+1, err)
+			}
+			if c2 != independentCid(b2) {
+				return fmt.Sprintf("ToSealed (call %d on one token): cid is not the hash of the bytes returned", r+1)
+			}
+			var w2 bytes.Buffer
+			c3, err := tk.ToSealedWriter(&w2, k.priv)
+			if err != nil {
+				return fmt.Sprintf("ToSealedWriter (call %d on one token): %v", r+1, err)
+			}
+			if c3 != independentCid(w2.Bytes()) {
+				return fmt.Sprintf("ToSealedWriter (call %d on one token): cid is not the hash of the bytes written", r+1)
+			}
+			if _, c4, err := token.FromSealed(b2); err != nil || c4 != c2 {
+				return fmt.Sprintf("ToSealed (call %d on one token): FromSealed reports another cid for the same bytes (%v)", r+1, err)
+			}
+		}
+	}
 	if sigDeterministic(alg) && !bytes.Equal(buf.Bytes(), b) {
 		return "ToSealedWriter bytes differ from ToSealed bytes"
 	}
